@@ -33,6 +33,9 @@ func checkC02(c *Ctx) {
 	r011(c, "R02.7 slot-overwritten-only-after-health-gate")
 	// what the deploy drains and disposes is the balancer that was replaced
 	rSlotSwap(c, "R02.8 replaced-balancer-is-the-slot's-previous-occupant")
+	// probe results are applied in the order the probes were made: a stalled early probe must not demote a target that
+	// later probes found healthy and the deploy has put in service (shared with C09)
+	r096(c, "R02.9 probing-discipline")
 }
 
 // R02.1 deploy step order.
